@@ -3,6 +3,7 @@ from __future__ import annotations
 
 import os
 import random
+import re
 import shutil
 import sys
 
@@ -70,6 +71,217 @@ def run_paths_chunk(job):
                     os.chdir(cwd)
             results.append(rec)
         return {"root": root, "cwd": cwd, "nodes": nodes, "results": results}
+    finally:
+        os.chdir(old_cwd)
+        shutil.rmtree(top, ignore_errors=True)
+
+
+# --------------------------------------------------------------------------------------------
+# schema names
+# --------------------------------------------------------------------------------------------
+
+SCHEMA_FILES = ["specs/schemas/a.oct.md", "specs/schemas/A_.oct.md", "specs/schemas/a0.oct.md", "specs/schemas/AA.oct.md", "specs/schemas/aa.oct.md",
+                "src/octave_mcp/resources/specs/schemas/a_.oct.md", "src/octave_mcp/resources/specs/schemas/a.oct.md",
+                "specs/secret.oct.md", "secret.oct.md", "a.oct.md", "specs/schemas/sub/a.oct.md", "specs/a.oct.md", "specs/schemas/a\n.oct.md"]
+
+
+def expected_search_dirs(cwd):
+    """independent evaluation of the four directories named in Gen.schemaSearchOrder."""
+    import octave_mcp.schemas.loader as LD
+    pkg = os.path.dirname(os.path.dirname(os.path.abspath(LD.__file__)))
+    cands = [pkg + "/resources/specs/schemas", cwd + "/src/octave_mcp/resources/specs/schemas", cwd + "/specs/schemas", pkg + "/schemas/builtin"]
+    return [d for d in cands if os.path.exists(d)]
+
+
+def run_schema_chunk(job):
+    """job = {names:[str], tag}.  For every name: result kind, paths stat'ed, paths opened (through the audit hook)."""
+    P.install_hook()
+    top, root = P.new_root(str(job.get("tag", "s")))
+    old_cwd = os.getcwd()
+    import octave_mcp.schemas.loader as LD
+    real_stat = os.stat
+    stats = []
+
+    def rec_stat(path, *a, **k):
+        if P._ON[0]:
+            try:
+                stats.append(os.fsdecode(os.fspath(path)))
+            except Exception:  # noqa: BLE001
+                stats.append(repr(path))
+        return real_stat(path, *a, **k)
+
+    try:
+        cwd = root + "/proj"
+        os.makedirs(cwd)
+        for rel in SCHEMA_FILES:
+            fp = os.path.join(cwd, rel)
+            os.makedirs(os.path.dirname(fp), exist_ok=True)
+            with open(fp, "w", encoding="utf-8") as f:
+                f.write(P.OCT)
+        os.chdir(cwd)
+        try:
+            LD.load_schema_by_name("META")
+        except Exception:  # noqa: BLE001
+            pass
+        dirs_impl = [str(d) for d in LD.get_schema_search_paths()]
+        dirs_expected = expected_search_dirs(cwd)
+        nodes = P.model_nodes(root, P.snapshot(root))
+        seen = {tuple(n[0]) for n in nodes}
+        for d in dirs_impl:
+            if P.inside(d, root):
+                continue
+            comps = [c for c in d.split("/") if c]
+            for i in range(1, len(comps) + 1):
+                if tuple(comps[:i]) not in seen:
+                    seen.add(tuple(comps[:i]))
+                    nodes.append([comps[:i], "d"])
+            for n in sorted(os.listdir(d)):
+                full = os.path.join(d, n)
+                nodes.append([comps + [n], "d" if os.path.isdir(full) else "f"])
+        os.stat = rec_stat
+        results = []
+        for name in job["names"]:
+            stats.clear()
+            with P.Trace() as t:
+                try:
+                    r = LD.load_schema_by_name(name)
+                    kind = "none" if r is None else "schema"
+                except Exception as e:  # noqa: BLE001
+                    kind = "raise:" + type(e).__name__
+            results.append({"n": name, "kind": kind, "stat": list(stats), "open": [[k, p, rp] for (k, p, rp) in t.events]})
+        return {"cwd": cwd, "dirs_impl": dirs_impl, "dirs_expected": dirs_expected, "nodes": nodes, "results": results}
+    finally:
+        os.stat = real_stat
+        os.chdir(old_cwd)
+        shutil.rmtree(top, ignore_errors=True)
+
+
+# --------------------------------------------------------------------------------------------
+# frozen references
+# --------------------------------------------------------------------------------------------
+
+def frozen_setup(cache, with_default):
+    import hashlib
+    os.makedirs(cache)
+    c1, c2, c3 = "GOOD-STANDARD\n", "OTHER-STANDARD\n", "DIRECTORY\n"
+    d = {k: hashlib.sha256(v.encode()).hexdigest() for k, v in (("good", c1), ("tampered", c2), ("dir", c3))}
+    with open(f"{cache}/{d['good'][:16]}.oct.md", "w") as f:
+        f.write(c1)
+    with open(f"{cache}/{d['tampered'][:16]}.oct.md", "w") as f:
+        f.write("tampered\n")
+    os.makedirs(f"{cache}/{d['dir'][:16]}.oct.md")
+    if with_default:
+        with open(f"{cache}/default.oct.md", "w") as f:
+            f.write(c1)
+    d["missing"] = hashlib.sha256(b"nothing").hexdigest()
+    d["collide"] = d["good"][:16] + d["missing"][16:]          # same file name as `good`, different digest
+    d["collide_tail"] = d["good"][:63] + ("0" if d["good"][63] != "0" else "1")
+    return d
+
+
+def run_frozen_chunk(job):
+    """job = {refs:[template str with {good},{tampered},... placeholders], with_default:bool}"""
+    import hashlib
+    P.install_hook()
+    top, root = P.new_root("f")
+    old_cwd = os.getcwd()
+    from pathlib import Path
+
+    from octave_mcp.core import hydrator as HY
+    try:
+        P.build_tree(root, [("out", "d", None), ("out/secret.md", "f", "SECRET-1\n"), ("sb", "d", None)])
+        cache = root + "/sb/cache"
+        dg = frozen_setup(cache, job["with_default"])
+        os.chdir(root + "/sb")
+        snap = P.snapshot(root)
+        nodes = []
+        for comps, n in P.model_nodes(root, snap):
+            if n == "f":
+                rel = os.path.relpath("/" + "/".join(comps), root)
+                n = {"f": snap[rel][1].decode("utf-8")}
+            nodes.append([comps, n])
+        htab = [[v[1].decode("utf-8"), hashlib.sha256(v[1]).hexdigest()] for v in snap.values() if v[0] == "f"]
+        results = []
+        for tmpl in job["refs"]:
+            ref = re.sub(r"\{good@(\d+)=(.)\}", lambda m: dg["good"][:int(m.group(1))] + m.group(2) + dg["good"][int(m.group(1)) + 1:], tmpl, flags=re.S)
+            for k, v in dg.items():
+                ref = ref.replace("{" + k + "}", v).replace("{" + k + ":U}", v.upper()).replace("{" + k + ":M}", v[:30].upper() + v[30:])
+            with P.Trace() as t:
+                try:
+                    q = HY.resolve_hermetic_standard(ref, Path(cache))
+                    res = ["ok", str(q)]
+                except HY.VocabularyError as e:
+                    m = str(e)
+                    res = ["mismatch" if "Hash mismatch" in m else "notFound" if "not found" in m else "invalid"]
+                except Exception as e:  # noqa: BLE001
+                    res = ["raise", type(e).__name__]
+            byts = None
+            if res[0] == "ok":
+                try:
+                    with open(res[1], "rb") as f:
+                        byts = hashlib.sha256(f.read()).hexdigest()
+                except Exception:  # noqa: BLE001
+                    byts = "unreadable"
+            results.append({"tmpl": tmpl, "ref": ref, "res": res, "sha": byts, "open": [[k, p, rp] for (k, p, rp) in t.events]})
+        return {"cache": cache, "root": root, "nodes": nodes, "H": htab, "results": results}
+    finally:
+        os.chdir(old_cwd)
+        shutil.rmtree(top, ignore_errors=True)
+
+
+# --------------------------------------------------------------------------------------------
+# source URIs
+# --------------------------------------------------------------------------------------------
+
+def run_uri_chunk(job):
+    """job = {kind, seed, base: relative dir below sb ('' = sb), uris:[str]}"""
+    P.install_hook()
+    top, root = P.new_root("u")
+    old_cwd = os.getcwd()
+    from pathlib import Path
+
+    from octave_mcp.core import hydrator as HY
+    ro = _ro_prefixes()
+    try:
+        spec = make_spec(job["kind"], job["seed"])
+        P.build_tree(root, spec)
+        sb = root + "/sb"
+        base = sb + ("/" + job["base"] if job["base"] else "")
+        os.chdir(sb)
+        nodes = P.model_nodes(root, P.snapshot(root))
+        realbase = os.path.realpath(base)
+        results = []
+        for u0 in job["uris"]:
+            u = u0.replace("{SB}", sb)
+            try:
+                r = HY.validate_source_uri(u, Path(base))
+                res = ["ok", str(r)]
+            except HY.SourceUriSecurityError as e:
+                m = str(e)
+                res = ["absolute" if "absolute paths" in m else "outside" if "outside allowed" in m else "resolveFailed"]
+            except Exception as e:  # noqa: BLE001
+                res = ["raise", type(e).__name__]
+            link_prefix = link_real = None
+            if res[0] == "ok":
+                cs = [c for c in res[1].split("/") if c]
+                for i in range(1, len(cs) + 1):
+                    pre = "/" + "/".join(cs[:i])
+                    if os.path.islink(pre):
+                        link_prefix, link_real = pre, os.path.realpath(pre)
+                        break
+            with P.Trace() as t:
+                try:
+                    sr = HY._check_single_snapshot("NS", u, "sha256:0", base_path=Path(base))
+                    st = sr.status
+                except Exception as e:  # noqa: BLE001
+                    st = "raise:" + type(e).__name__
+            in_base = [e for e in t.events if P.inside(e[2], realbase)]
+            other = [list(e) for e in t.events if not P.inside(e[2], realbase)
+                     and not (e[0] == "open-r" and any(P.inside(e[2], q) for q in ro))]
+            results.append({"u": u0, "res": res, "snap_status": st, "opened_in_base": len(in_base), "opened_outside": other[:4],
+                            "link_prefix": link_prefix, "link_real": link_real,
+                            "result_real": os.path.realpath(res[1]) if res[0] == "ok" else None})
+        return {"base": base, "realbase": realbase, "sb": sb, "nodes": nodes, "results": results}
     finally:
         os.chdir(old_cwd)
         shutil.rmtree(top, ignore_errors=True)
